@@ -72,8 +72,11 @@ def render (w : W) (start : Nat) : String :=
   let accs := sortBy (fun (a b : Nat × String) => a.1 < b.1) accs
   let panic := if evs.any (fun | .panicked => true | _ => false) then " PANIC" else ""
   match evs.getLast? with
-  | some (.snap up q act cap live) =>
-    s!"build=[{joinC builds}] start=[{joinC (starts.map fun (a, i, k) => s!"{a}:{i}:{k}")}] disc=[{joinC discs}] hook=[{joinC hooks}] acc=[{joinC (accs.map fun (i, b) => s!"{i}:{b}")}] up={if up then 1 else 0} q={showOptNat w.blocked q} act={showOptNat w.blocked act} cap={showOptNat w.blocked cap} live=[{joinC (live.map toString)}]{panic}"
+  | some (.snap up q act cap live wq) =>
+    let wqs := match wq with
+      | some l => "[" ++ joinC ((sortBy (fun (a b : Nat × Nat) => a.1 < b.1) l).map fun (x : Nat × Nat) => s!"{x.1}:{x.2}") ++ "]"
+      | none => "-" 
+    s!"build=[{joinC builds}] start=[{joinC (starts.map fun (a, i, k) => s!"{a}:{i}:{k}")}] disc=[{joinC discs}] hook=[{joinC hooks}] acc=[{joinC (accs.map fun (i, b) => s!"{i}:{b}")}] up={if up then 1 else 0} q={showOptNat w.blocked q} act={showOptNat w.blocked act} cap={showOptNat w.blocked cap} live=[{joinC (live.map toString)}] wq={wqs}{panic}"
   | _ => "no-snap"
 
 def parseOp? (ws : List String) : Option Op :=
@@ -132,10 +135,17 @@ def parseObs? (impl : String) : Option (List Ev) := do
       pure (if r == "x" then Ev.portClosed i else Ev.reply i (r != "a"))
     | _ => none
   let live ← (← bracket? ws "live").mapM (·.toNat?)
+  let wq ← match kv ws "wq" with
+    | some "-" => pure none
+    | some _ => do
+      let l ← (← bracket? ws "wq").mapM fun b => match b.splitOn ":" with
+        | [w, n] => do pure ((← w.toNat?), (← n.toNat?)) | _ => none
+      pure (some l)
+    | none => none
   let up ← kv ws "up"
   let q ← optQ? (← kv ws "q"); let act ← optQ? (← kv ws "act"); let cap ← optQ? (← kv ws "cap")
   -- discards first: a job is rejected before anything else can happen to it in the same step
-  pure (builds ++ discs ++ accs ++ starts ++ hooks ++ [Ev.snap (up == "1") q act cap live])
+  pure (builds ++ discs ++ accs ++ starts ++ hooks ++ [Ev.snap (up == "1") q act cap live wq])
 
 def opEvents : Op → List Ev
   | .dispatch id key _ _ acc => [.dispatched id key acc]
